@@ -67,6 +67,17 @@ pub fn read_pairs(
         .collect::<StdResult<Vec<PairInfo>>>()
 }
 
+/// Every registered pair, in key order, without any page limit
+pub fn read_all_pairs(storage: &dyn Storage, api: &dyn Api) -> StdResult<Vec<PairInfo>> {
+    PAIRS
+        .range(storage, None, None, Order::Ascending)
+        .map(|item| {
+            let (_, v) = item?;
+            v.to_normal(api)
+        })
+        .collect::<StdResult<Vec<PairInfo>>>()
+}
+
 // this will set the first key after the provided key, by appending a 1 byte
 fn calc_range_start(start_after: Option<[AssetInfoRaw; 2]>) -> Option<Vec<u8>> {
     start_after.map(|asset_infos| {
